@@ -995,12 +995,20 @@ def run(case, out):
                          fresh=str(want)[:120])
                 return
         else:
-            try:
-                sg = semantic(kr, got, out)
-                sw = semantic(kr, want, out)
-            except Exception as ex:
-                out.fail("I2:result-not-observable:" + type(ex).__name__, step=step, op=name)
-                return
+            def sem(x):
+                try:
+                    return semantic(kr, x, out), None
+                except Exception as ex:
+                    return None, type(ex).__name__
+            sg, eg = sem(got)
+            sw, ew = sem(want)
+            if eg or ew:
+                if eg != ew:
+                    out.fail("I2:result-not-observable:" + str(eg or ew), step=step, op=name, live=eg, fresh=ew)
+                    return
+                # the same malformed result on a fresh replica (e.g. a conversion of an empty PDA): not a history effect
+                out.probe("result_not_observable_on_both_sides")
+                continue
             if not same_meaning(sg, sw):
                 out.fail("I2:result-differs-from-fresh-replica", step=step, op=name)
                 return
